@@ -362,7 +362,30 @@ func runC08(c *Ctx) {
 			r := core.ResultVar(info, tees[0].Top, tee, 0)
 			hp := core.PathOf(info, tee.Args[1])
 			sumRecv := core.PathOf(info, sums[0].Node.(*ast.CallExpr).Fun.(*ast.SelectorExpr).X)
-			ok = r != nil && core.UsesObj(info, reads[0].Node, r) && hp.Valid() && hp.Key() == sumRecv.Key() && g.Dominates(reads[0].Loc, sums[0].Loc)
+			// what ReadAll reads comes from the tee: directly, through locals, or wrapped (LimitReader(TeeReader(..)))
+			fromTee := r != nil && core.UsesObj(info, reads[0].Node, r)
+			var derives func(e ast.Expr, depth int) bool
+			derives = func(e ast.Expr, depth int) bool {
+				if depth > 4 {
+					return false
+				}
+				e = resolveLocal(info, f.Body, e)
+				if e == ast.Expr(tee) {
+					return true
+				}
+				if call, isC := e.(*ast.CallExpr); isC {
+					for _, a := range call.Args {
+						if derives(a, depth+1) {
+							return true
+						}
+					}
+				}
+				return false
+			}
+			if ra := reads[0].Node.(*ast.CallExpr); !fromTee && len(ra.Args) == 1 && derives(ra.Args[0], 0) {
+				fromTee = true
+			}
+			ok = fromTee && hp.Valid() && hp.Key() == sumRecv.Key() && g.Dominates(reads[0].Loc, sums[0].Loc)
 			if ok {
 				s, _ := g.OnSuccessOf(reads[0], sums[0].Loc)
 				ok = s
